@@ -35,8 +35,8 @@ def prod(**kw):
 SPECS = []
 
 
-def spec(name, prop, configs, build, ref=None, seq=None, note=''):
-    SPECS.append(dict(name=name, prop=prop, configs=configs, build=build, ref=ref, seq=seq, note=note))
+def spec(name, prop, configs, build, ref=None, seq=None, note='', extra=None):
+    SPECS.append(dict(name=name, prop=prop, configs=configs, build=build, ref=ref, seq=seq, note=note, extra=extra))
 
 
 # ---------------------------------------------------------------- helpers for builders
@@ -464,7 +464,7 @@ def ref_bcd(v, p):
     return dict(r=r)
 
 
-spec('BinaryToBCD', 'C07', lambda tier: [dict(aw=4, rw=8), dict(aw=7, rw=12), dict(aw=5, rw=8)] + ([dict(aw=8, rw=12)] if tier == 'thorough' else []),
+spec('BinaryToBCD', 'C07', lambda tier: [dict(aw=4, rw=8), dict(aw=7, rw=12), dict(aw=5, rw=8), dict(aw=4, rw=4), dict(aw=7, rw=8)] + ([dict(aw=8, rw=12)] if tier == 'thorough' else []),
      a_r('BinaryToBCD'), ref_bcd)
 
 
@@ -473,8 +473,8 @@ class Model:
     """reference state machine: outputs() before the first edge and after every step(v)"""
 
 
-def seqspec(name, configs, build, model, note=''):
-    spec(name, 'C09', configs, build, ref=None, seq=model, note=note)
+def seqspec(name, configs, build, model, note='', extra=None):
+    spec(name, 'C09', configs, build, ref=None, seq=model, note=note, extra=extra)
 
 
 def b_reg(D, p):
@@ -755,7 +755,20 @@ class StackModel(Model):
             self.st = ([v['din']] + self.st)[:self.p['depth']]
 
 
-seqspec('Stack_ShiftRegister', lambda tier: prod(w=[1, 2], depth=[1, 2, 3]), b_stack, StackModel)
+def stack_scripts(p):
+    """fill to the brim and drain (and one push too many): push / pop never together, so the whole run is specified"""
+    w, d = p['w'], p['depth']
+    vals = [(i % ((1 << w) - 1)) + 1 for i in range(d + 1)]
+    idle = dict(din=0, push=0, pop=0)
+    for n in (d, d + 1):
+        yield [dict(din=v, push=1, pop=0) for v in vals[:n]] + [dict(din=0, push=0, pop=1) for _ in range(d + 1)]
+        yield [dict(din=v, push=1, pop=0) for v in vals[:n]] + [idle] + [dict(din=0, push=0, pop=1), idle] * d
+    # push / pop interleavings without simultaneous requests
+    pat = [1, 1, 0, 1, 0, 0, 1, 1, 1, 0, 0, 0, 0]
+    yield [dict(din=vals[i % len(vals)], push=x, pop=1 - x) for i, x in enumerate(pat)]
+
+
+seqspec('Stack_ShiftRegister', lambda tier: prod(w=[1, 2], depth=[1, 2, 3, 4]), b_stack, StackModel, extra=stack_scripts)
 
 
 def b_edge(D, p):
